@@ -195,6 +195,15 @@ def _tailify(stmts, target, lineno):
                     return None
                 out.append(ast.If(test=st.test, body=b, orelse=o, lineno=st.lineno, col_offset=0))
                 return out
+            rest_is_none = all(isinstance(x, ast.Return) and (x.value is None or (isinstance(x.value, ast.Constant) and x.value.value is None)) for x in block[i + 1 :])
+            always_returns = bool(st.body) and isinstance(st.body[-1], (ast.Return, ast.Raise)) if isinstance(st, ast.With) else False
+            if isinstance(st, ast.With) and _contains_return(st) and (i == len(block) - 1 or (rest_is_none and always_returns)):
+                # with cm: ...; return e   (last statement of the block)  ->  with cm: ...; target = e
+                b = rec(list(st.body))
+                if b is None:
+                    return None
+                out.append(ast.With(items=st.items, body=b, lineno=st.lineno, col_offset=0))
+                return out
             if _contains_return(st):
                 return None
             out.append(st)
@@ -335,10 +344,15 @@ class _ExprInline(ast.NodeTransformer):
         params = [a.arg for a in fi.node.args.args]
         if fi.cls is not None and not fi.is_static and params and params[0] in ("self", "cls"):
             params = params[1:]
-        if any(k.arg is None or k.arg not in params[len(n.args):] for k in n.keywords) or len(n.args) + len(n.keywords) != len(params) or any(isinstance(a, ast.Starred) for a in n.args):
+        if any(k.arg is None or k.arg not in params[len(n.args):] for k in n.keywords) or len(n.args) > len(params) or any(isinstance(a, ast.Starred) for a in n.args):
             return n
         mapping = dict(zip(params, n.args))
         mapping.update({k.arg: k.value for k in n.keywords})
+        for p_, d_ in zip(reversed([a.arg for a in fi.node.args.args]), reversed(fi.node.args.defaults)):
+            if p_ in params and p_ not in mapping:
+                mapping[p_] = d_
+        if set(mapping) != set(params):
+            return n
         # an argument that is more than a name may be substituted only where it is used once (no duplicated evaluation)
         uses = {}
         for x in ast.walk(expr):
